@@ -33,13 +33,24 @@ Theorem C17_expired_emitted : forall E s id flush n rd tadd, N.eqb id 0 = false 
 Proof. exact expired_emitted. Qed.
 Print Assumptions C17_expired_emitted.
 
-(* "oldest first": when the clock readings used to open groups never decrease over the history (any interleaving of critical
-   sections), the gate lists the groups by non-decreasing expiry — so the walks above, which emit in list order, emit the group
-   that expires first first *)
+(* "oldest first": list order is ARRIVAL order.  It coincides with expiry order only under the two hypotheses stated here — one
+   constant Expiration (the fixed [E]) and group-opening clock readings that never decrease; Expiration is an exported field that
+   may change between calls and a clock may step back, and then a later group can expire before an earlier one.  Nothing else in
+   this file depends on the order: C17_expired_gone / C17_expire_success / C17_memory_bound hold for EVERY state [s], whatever the
+   order of its groups' expiries (the walk examines every group, C17_expired_gone_needs_no_order is an instance), and the
+   correspondence runs the model with the Expiration in force at each call (Run_Gated.cfg_at). *)
 Theorem C17_groups_sorted_by_expiry : forall E l,
   0 <= expiration_cfg E -> Sorted.StronglySorted Z.le (add_times l) -> Sorted.StronglySorted Z.le (map gexp (groups (arun E l))).
 Proof. exact groups_sorted_by_expiry. Qed.
 Print Assumptions C17_groups_sorted_by_expiry.
+
+(* an instance with list order <> expiry order: group 1 (expires 1010) listed before group 2 (expires 1005); the Process at 1007
+   succeeds, group 2 is emitted through the Broker and only the unexpired group 1 and the new group remain *)
+Theorem C17_expired_gone_needs_no_order :
+  snd (step E_ok unordered (at_ 1007 3 false 3)) = RWithheld /\
+  map gid (groups (fst (step E_ok unordered (at_ 1007 3 false 3)))) = [1%N; 3%N] /\
+  hd (LArr {| eid := 0; en := 0 |}) (tl (log (fst (step E_ok unordered (at_ 1007 3 false 3))))) = LOut DSent 2 [{| eid := 2; en := 2 |}].
+Proof. exact unordered_sweep. Qed.
 
 (* after a successful FlushAll / Close nothing remains gated and every previously gated group was emitted exactly once,
    oldest first: sent through the Broker when one is configured, dropped otherwise *)
